@@ -21,7 +21,9 @@ Record stepobs := mkStep {
   so_ret : retv;
   so_done : list (N * err * list (list N));   (* completed requests, ascending request id *)
   so_xev : list (N * option err);             (* exchange events in channel order per exchange, ascending id *)
-  so_online : bool                             (* Online() is released after the step *)
+  so_online : bool;                            (* Online() is released after the step *)
+  so_store : option store                      (* Some m: before this call the environment rewrote the
+                                                  Persistence content to m (damage, seeding) *)
 }.
 
 Inductive histcase :=
@@ -95,6 +97,7 @@ Inductive verdict := Agree | Disagree (what : N).   (* 1 script, 2 requests, 3 r
 
 Definition check_step (cm : client * store) (s : stepobs) : (client * store) * verdict :=
   let '(c, m) := cm in
+  let m := match so_store s with Some m' => m' | None => m end in
   match step c (so_op s) (tapes_of (so_evs s) (map_world m)) with
   | None => (cm, Disagree 1)
   | Some ((c', r), w) =>
